@@ -980,6 +980,9 @@ func childLive() {
 				a.extra["not_executed_after_expensive_budget"]++
 				continue
 			}
+			if sinceBase++; sinceBase >= 64 {
+				profBase, sinceBase = profSnapshot(), 0
+			}
 			before := a.extra["expensive"]
 			liveOne(ci, cs, idx, data, a)
 			expensive += int(a.extra["expensive"] - before)
